@@ -2502,6 +2502,16 @@ hsStateDetermined:
                 }
 
 /*
+                The fragment must also be entirely inside the record.
+*/
+                if (fragLen > (uint32) (end - c))
+                {
+                    ssl->err = SSL_ALERT_DECODE_ERROR;
+                    psTraceErrr("Fragment length exceeds record length\n");
+                    return MATRIXSSL_ERROR;
+                }
+
+/*
                 Need to save the hs header info aside as well so that we may
                 pass the fragments through the handshake hash mechanism in
                 the correct order.  This list also keeps track of the fragment
